@@ -1,43 +1,6 @@
 package log
 
-import (
-	"os"
-	"reflect"
-	"sync"
-)
-
-// VerifReset restores every piece of package-level state, so that each execution explored by the
-// verification harness starts from the same state. (Added by overlay; not part of the library.)
-// Lines marked `verif:needs` are dropped by the instrumenter when the tree under test no longer has
-// the private name (the generated VerifResetGlobals restores every package-level variable anyway).
-func VerifReset() {
-	// the whole lifecycle record back to its zero value, whatever its fields are called
-	gv := reflect.ValueOf(&global).Elem()
-	gv.Set(reflect.Zero(gv.Type()))
-	for _, t := range tagRegistry {
-		t.logger = nil
-	}
-	for _, l := range loggerMap {
-		l.logger = nil
-	}
-	bufferPool = sync.Pool{}                                   // verif:needs bufferPool
-	eventPool = sync.Pool{New: func() any { return &Event{} }} // verif:needs eventPool
-	frameCache = sync.Map{}                                    // verif:needs frameCache
-	BufferCap.Store(10 * 1024)
-	enableCaller = true // verif:needs enableCaller
-	fastCaller = false  // verif:needs fastCaller
-	TimeNow = nil
-	StringFromContext = nil
-	FieldsFromContext = nil
-	Stdout = os.Stdout
-}
-
-// VerifCallerMode reads the caller-lookup switches (ok=false: the tree has no such switches any more).
-func VerifCallerMode() (enable, fast, ok bool) {
-	n := 0
-	enable, n = enableCaller, n+1 // verif:needs enableCaller
-	fast, n = fastCaller, n+1     // verif:needs fastCaller
-	return enable, fast, n == 2
-}
-
-var _ = sync.Pool{}
+// Added to package log by overlay for the scheduler harness (not part of the library). Every execution
+// starts from the generated VerifResetGlobals() (deep, in-place restore of everything reachable from
+// the package-level variables); nothing here names a private identifier of the tree under test, and
+// since the deep restore was built there is nothing left to do by hand.
